@@ -169,4 +169,15 @@ func init() {
 			What:   "Counter.doRollUp (first pass) on two un-rolled entries with arbitrary ordered times and an arbitrary non-decreasing clock at every reading: total preserved, history stays ordered in time, DeltaBetween of any window <= total",
 			Bounds: "2 entries, times 2020..2100 in ms", Outside: "longer histories and later passes (H19.1b when listed)"},
 	)
+	envR := map[string]string{}
+	for k, v := range sess {
+		envR[k] = v
+	}
+	envR["(*github.com/enfein/mieru/v3/pkg/protocol.segmentTree).Len"] = "vStubTreeLenEnv"
+	reg("C03",
+		HarnessDef{ID: "H3.2", Spec: HarnessSpec{Name: "vH_C03_read_eof_means_drained", Pkg: "pkg/protocol", LoopBound: 8, LoopBounds: sessLB, TimeoutS: 240, Par: 6, Redirects: envR, IgnoreBlocked: true}, ReplayFn: "vR_C03_read_eof",
+			ReplayPatches: []SrcPatch{{File: "pkg/protocol/session.go", Old: "\t\tif s.recvQueue.Len() > 0 {\n\t\t\t// Read segments from recv queue.", New: "\t\tif vReplayLenHook(s) > 0 {\n\t\t\t// Read segments from recv queue."}},
+			What:   "real Session.Read with an environment step (another goroutine may queue the next data segment and/or complete the close right after Read looked at the queue; the select choice among ready cases is symbolic): io.EOF is returned only when the receive queue and unread buffer are empty",
+			Bounds: "one environment step at the queue-length check, segment payload 1..2 bytes, both transports, client and server", Outside: sessNote + "; the sender side and the UDP close ordering (see DESIGN.md, known findings)"},
+	)
 }
